@@ -443,6 +443,10 @@ package litefs
 //@   on call isByteSliceZero ; then zero = ret0, sec = be32(arg0, 20)
 //@   on call bytes.Equal ; then magic = ret0
 //@   proves    err == io.EOF && old(r.pageSize) != 0 && rd == 1 && !zero && (r.offset == 0 ? sec != 0 : magic) ==> r.offset + int64(r.sectorSize) > fileSize(r.fi)
+// a header that is refused at sight (short read, all zero, or missing magic after the first segment) leaves the fields of
+// the last ACCEPTED header untouched: rollbackJournal restores the size (r.commit) of the last valid header
+//@   ensures   err != nil && old(r.pageSize) == 0 ==> unchanged(r.commit, r.nonce, r.frameN)
+//@   proves    err == io.EOF && (rd == 2 || (rd == 1 && zero) || (rd == 1 && r.offset != 0 && !magic)) ==> unchanged(r.commit, r.nonce, r.frameN)
 //@   ensures   jrOK(r) && r.pageSize == old(r.pageSize)
 //@   ensures   err == nil ==> r.sectorSize != 0 && r.pageSize != 0 && len(r.frame) == int(r.pageSize) + 8
 //@   ensures   err == nil ==> r.offset == old(r.offset) + int64(r.sectorSize) || old(r.offset) != 0
